@@ -336,9 +336,9 @@ def r4_merge_once(ck, F, R="C06-R4"):
             r = c.expr_at_return().strip()
             ck.ob(R, "gathered-value-projection", r.k == "field" and r.x["idx"] == 1, "each gathered entry contributes the value part of its current entry", c)
     # Err(e) => Error::Merge(e)
-    errs = [alt for alt in return_alts(b) if alt.k == "agg" and alt.x.get("variant") == "Err"]
-    okm = any(x.a[0].k == "agg" and x.a[0].x.get("variant") == "Merge" and any(y.k == "call" and y.x.get("site") == m for y in x.a[0].walk()) for x in errs)
-    ck.ob(R, "merge-error-wrapped", okm, "a merge error is returned as Error::Merge(e)", b)
+    from .errflow import err_chain, propagated
+    okm = all(err_chain(b, x[0]) == ["Merge"] and propagated(F, b, x[0]) for x in ms)
+    ck.ob(R, "merge-error-wrapped", okm, "a merge error is returned as Error::Merge(e) (explicit `return Err(..)` or `map_err(Error::Merge)?`)", b)
     # output buffers are cleared before they are refilled
     for fld in ("current_key", "merged_value"):
         exts = [s for s, c, t in b.calls() if callee_name(c).rsplit("::", 1)[-1] in ("extend_from_slice", "extend", "push", "append") and is_self_field(b.arg_exprs(s)[0], fld)]
